@@ -310,11 +310,13 @@ pub struct ScriptSub {
     pub gate: Option<Gate>,
     /// read the store's state inside on_notify (C08); Weak to avoid keeping the store alive
     pub read_from: Option<std::sync::Weak<StoreImpl<St, Act>>>,
+    /// forward every notification as a new action (id + offset) to another store (C19)
+    pub forward_to: Option<(std::sync::Weak<StoreImpl<St, Act>>, u32)>,
 }
 
 impl ScriptSub {
     pub fn new(id: u32) -> ScriptSub {
-        ScriptSub { id, gate: None, read_from: None }
+        ScriptSub { id, gate: None, read_from: None, forward_to: None }
     }
 }
 
@@ -343,6 +345,11 @@ impl Subscriber<St, Act> for ScriptSub {
                     out: vec![],
                     x: 0,
                 });
+            }
+        }
+        if let Some((w, off)) = &self.forward_to {
+            if let Some(s) = w.upgrade() {
+                dispatch(&s, Act::new(action.id + off));
             }
         }
         if let Some(g) = self.gate {
